@@ -78,6 +78,7 @@ def _case(draw):
     c["mog"] = {"K": draw(st.integers(1, 3)), "res": draw(st.booleans()), "random_mask": draw(st.booleans()), "blocks": draw(st.integers(1, 2))}
     c["rows"] = draw(st.integers(1, 3))
     c["seed"] = draw(st.integers(0, 10 ** 6))
+    c["narrow_base"] = draw(st.sampled_from([0.0, 0.0, 5.0, 7.0, 9.0])) if c["base"] == "conditional" else 0.0
     return c
 
 
@@ -137,6 +138,8 @@ def run_case(case):
             enc = torch.nn.Linear(ctxk, 2 * D)
             with torch.no_grad():
                 enc.weight.mul_(0.5)
+                if case.get("narrow_base"):
+                    enc.bias[D:] -= case["narrow_base"]      # context rows that encode small base standard deviations (e^-5 .. e^-9)
             base = dist.ConditionalDiagonalNormal([D], context_encoder=enc)
             with torch.no_grad():
                 p = enc(ctx)
